@@ -172,7 +172,19 @@ def build_harness(profile="release", crate="harness"):
 
 def vh(ctx, args, profile="release", timeout=3600, check=True, env=None):
     b = build_harness(profile)
-    return run([b] + [str(a) for a in args], cwd=ctx.out, timeout=timeout, check=check, env=env)
+    r = run([b] + [str(a) for a in args], cwd=ctx.out, timeout=timeout, check=False, env=env)
+    if check and (r.returncode < 0 or r.returncode in (134, 137, 139)):
+        # the executor process was killed while running the code under test (abort from the heap cap / an allocation failure,
+        # a stack overflow, a segmentation fault): that is behaviour of the code, not of the tool.  On the unchanged tree no
+        # executor ever dies, so this cannot raise an alarm there.
+        tail = (r.stdout or "")[-400:].replace("\n", " | ")
+        ctx.violation("the process executing `vh %s` was killed (exit status %d) while running the code under test: memory exhausted (heap cap), "
+                      "abort, stack overflow or invalid memory access. Last output: %s" % (args[0], r.returncode, tail),
+                      {"command": [str(a) for a in args], "exit_status": r.returncode}, tag="crash")
+        raise ToolError("executor killed (%d): vh %s" % (r.returncode, args[0]))
+    if check and r.returncode != 0:
+        raise ToolError("command failed (%d): %s\n%s" % (r.returncode, " ".join(str(a) for a in [b] + list(args))[:300], (r.stdout or "")[-3000:]))
+    return r
 
 
 # ---- TLC -------------------------------------------------------------------
